@@ -22,6 +22,8 @@ RULE = ('programs are generated as JSON ASTs (vp/gen/c16_gen.py), rendered to XP
         'elementpath and by the reference. sort: stable ordered permutation on items carrying their input position. '
         'sort-hetero: fn:sort / array:sort with type-discriminating key functions over items that are equal as python '
         'objects but distinct XPath values (true()/1/1.0e0/xs:float(1), "b"/untypedAtomic/anyURI), judged strictly by type. '
+        'sort-collation: fn:sort / array:sort on mixed-case strings with the parser default collation codepoint or '
+        'html-ascii-case-insensitive, $collation absent / () / explicit, direct / #arity / static partial / dynamic partial. '
         'closure also holds empty-closure items whose parameter is a variable at the call site (read after the call) and '
         'partial applications whose fixed argument is ., position(), name() or a child step, called under another focus. '
         'history: function items and parser.get_function objects called repeatedly from python. non-trivial = >= 2 '
@@ -32,7 +34,8 @@ ASSUMPTIONS = [
     'root operation raises on error-free operands)',
     'function items in results are compared by arity only',
     'declared parameter / result types are only ones the passed values already have (no function conversion is modelled)',
-    'sort uses the default (codepoint) collation only; keys are integers, strings, xs:double NaN, or short sequences',
+    'sort / sort-hetero use the codepoint collation; sort-collation runs XPath31Parser with default_collation codepoint or '
+    'html-ascii-case-insensitive (never a UCA/locale collation) and passes $collation absent, (), or one of these two URIs',
     'a callback of the wrong arity is demanded to raise XPTY0004 only when the HOF has items to call it on (>= 2 for sort)',
     'python-level histories call items through XPathFunction.__call__(*args, context=ctx) with a fresh copy of one context',
 ]
@@ -51,6 +54,8 @@ FLOORS = {
     'closure:pattern:empty-closure': (0.10, 'closure:case'),
     'closure:pattern:focus-partial': (0.10, 'closure:case'),
     'sort-hetero:python-equal-twins': (0.70, 'sort-hetero:case'),
+    'sort-collation:orders-differ': (0.70, 'sort-collation:case'),
+    'sort-collation:empty-arg-nondefault': (0.20, 'sort-collation:case'),
     'program:param-shadows-variable': (0.08, 'program:case'),
 }
 
@@ -575,6 +580,80 @@ def _py_equal(a, b):
 
 
 # --------------------------------------------------------------------------
+# sort-collation: parser configuration axis (default collation), explicit / empty / absent $collation
+# --------------------------------------------------------------------------
+_COLL_URI = {'codepoint': interp.COLLATION_CODEPOINT, 'html-ascii': interp.COLLATION_HTML_ASCII}
+
+
+def _collation_program(case):
+    X = ['var', 'x']
+    items = [['str', t] for t in case['items']]
+    src = ['seq', *items] if case['fn'] == 'sort' else ['array', items]
+    coll = case['coll']
+    keyfn = {
+        'none': None, 'identity': ['inline', ['x'], X], 'typed-identity': ['inline', [['x', 'xs:string']], X, 'xs:string'],
+        'dup': ['inline', ['x'], ['call', 'concat', [X, X]]],
+        'len-then-string': ['inline', ['x'], ['seq', ['call', 'string-length', [X]], X]],
+        'string-then-len': ['inline', ['x'], ['seq', ['call', 'upper-case', [['call', 'substring', [X, ['int', 1], ['int', 1]]]]], X]],
+    }[case['key']]
+    if coll == 'absent':
+        args = [src]
+    else:
+        C = ['empty'] if coll == 'empty' else ['str', _COLL_URI[coll]]
+        args = [src, C] + ([keyfn] if keyfn is not None else [])
+    form, name = case['form'], case['fn']
+    if form == 'ref':
+        return ['dyn', ['ref', name, len(args)], args]
+    if form in ('static-partial', 'dyn-partial') and len(args) >= 2:
+        holes = [['?']] + args[1:]
+        f = ['call', name, holes] if form == 'static-partial' else ['dyn', ['ref', name, len(args)], holes]
+        return ['dyn', f, [src]]
+    if form == 'let-key' and len(args) == 3:
+        return ['let', [['k', keyfn]], ['call', name, [src, args[1], ['var', 'k']]]]
+    return ['call', name, args]
+
+
+def judge_sort_collation(case, rec: Recorder | None = None) -> list[Disc]:
+    v = case['v']
+    prog = _collation_program(case)
+    expr = interp.render(prog)
+    default = _COLL_URI[case['default']]
+    ip = CountingInterp(v, budget=40000, default_collation=default)
+    discs: list[Disc] = []
+    want = _flat(interp.canon_seq(ip.run(prog)))
+    obs = base.run_ep(expr, v, False, default_collation=default)
+    cls_ = f'{case["default"]}-default/{case["coll"]}'
+    kind = None
+    if obs[0] == 'err':
+        kind = f'unexpected-error:{obs[1]}'
+    elif obs[0] == 'escape':
+        kind = 'escape:' + type(obs[1]).__name__
+    elif obs[1] != want:
+        kind = 'not-a-permutation' if sorted(map(canon, obs[1])) != sorted(map(canon, want)) else 'order'
+    if kind:
+        discs.append(Disc(f'C16/sort-collation/{cls_}/{kind}', want, _show(obs), f'default={case["default"]} {expr}'))
+    # F&O: sort($s) is sort($s, default-collation(), data#1): the three spellings agree under one parser
+    if case['fn'] == 'sort' and not kind:
+        S = ['seq', *[['str', t] for t in case['items']]]
+        rel = ['call', 'deep-equal', [['call', 'sort', [S]], ['call', 'sort', [S, ['empty'], ['inline', ['x'], ['var', 'x']]]]]]
+        r = base.run_ep(interp.render(rel), v, False, default_collation=default)
+        if r != ('val', [['b', True]]):
+            discs.append(Disc(f'C16/sort-collation/{case["default"]}-default/deep-equal-of-spellings', True, _show(r),
+                              interp.render(rel)))
+    if rec is not None:
+        lowered = [t.lower() for t in case['items']]
+        differs = sorted(case['items']) != sorted(case['items'], key=lambda t: t.translate(interp._ASCII_LOWER)) or \
+            len(set(lowered)) < len(set(case['items']))
+        rec.case([case['default'], expr], nontrivial=len(case['items']) >= 2,
+                 sample={'check': 'sort-collation', 'default_collation': case['default'], 'expr': expr},
+                 classes=['sort-collation:case', f'sort-collation:default:{case["default"]}', f'sort-collation:arg:{case["coll"]}',
+                          f'sort-collation:form:{case["form"]}', f'sort-collation:{case["fn"]}'] +
+                         (['sort-collation:orders-differ'] if differs else []) +
+                         (['sort-collation:empty-arg-nondefault'] if case['coll'] == 'empty' and case['default'] == 'html-ascii' else []))
+    return discs
+
+
+# --------------------------------------------------------------------------
 # history: function items called repeatedly from python
 # --------------------------------------------------------------------------
 def _norm(r):
@@ -707,9 +786,9 @@ def judge_misuse(case, rec: Recorder | None = None) -> list[Disc]:
     return discs
 
 
-_STRATS = {'sort-hetero': c16_gen.hetero_sort_case(), 'misuse': c16_gen.misuse_case(), 'closure': _closure_case(), 'expand': c16_gen.expansion_case(), 'sort': c16_gen.sort_case(),
+_STRATS = {'sort-collation': c16_gen.collation_sort_case(), 'sort-hetero': c16_gen.hetero_sort_case(), 'misuse': c16_gen.misuse_case(), 'closure': _closure_case(), 'expand': c16_gen.expansion_case(), 'sort': c16_gen.sort_case(),
            'history': c16_gen.history_case()}
-_JUDGES = {'sort-hetero': judge_sort_hetero, 'misuse': judge_misuse, 'closure': judge_closure, 'expand': judge_expand, 'sort': judge_sort, 'history': judge_history}
+_JUDGES = {'sort-collation': judge_sort_collation, 'sort-hetero': judge_sort_hetero, 'misuse': judge_misuse, 'closure': judge_closure, 'expand': judge_expand, 'sort': judge_sort, 'history': judge_history}
 
 
 def selftest():
@@ -731,7 +810,8 @@ def jobs(tier, seed):
     # measured cpu per shard (idle core): program 22 ms/example (5 programs), others 2-3 ms/case
     # quick: longest shard about 30 s cpu (60 s target with margin); thorough: about 10 min
     plan = [('program', 7, 1300 if q else 28000), ('closure', 3, 4000 if q else 60000), ('expand', 2, 5000 if q else 80000),
-            ('sort', 1, 5000 if q else 80000), ('sort-hetero', 1, 5000 if q else 80000), ('history', 1, 5500 if q else 80000),
+            ('sort', 1, 4000 if q else 70000), ('sort-hetero', 1, 2500 if q else 40000), ('sort-collation', 1, 2500 if q else 40000),
+            ('history', 1, 5500 if q else 80000),
             ('misuse', 1, 3500 if q else 40000)]
     out = []
     for name, shards, n in plan:
